@@ -26,7 +26,7 @@ static const char* kPath2[] = {"PlanarDirection(x, y)", "PlanarDirection(std::ar
                                "PlanarDirection(Direction) from (x, y, 0)", "PlanarDirection(PlanarDirection<other precision>)"};
 template <class T> static void build3(int path, const LD* v, LD* out) {
   const T x = (T)v[0], y = (T)v[1], z = (T)v[2];
-  Direction<T> d;
+  Direction<T> d((T)3, (T)-2, (T)6);   // Set and assignment act on an object that already holds a direction
   switch (path) {
     case 0: d = Direction<T>(x, y, z); break;
     case 1: d = Direction<T>(std::array<T, 3>{x, y, z}); break;
@@ -42,7 +42,7 @@ template <class T> static void build3(int path, const LD* v, LD* out) {
 }
 template <class T> static void build2(int path, const LD* v, LD* out) {
   const T x = (T)v[0], y = (T)v[1];
-  PlanarDirection<T> d;
+  PlanarDirection<T> d((T)3, (T)-4);
   switch (path) {
     case 0: d = PlanarDirection<T>(x, y); break;
     case 1: d = PlanarDirection<T>(std::array<T, 2>{x, y}); break;
